@@ -6,7 +6,7 @@ class C11(Prop):
     check_mod = "C11"
     drivers = [dict(pkg="internal/conf", test="TestVerifC11")]
     n_quick = 120
-    n_thorough = 6000
+    n_thorough = 1500
     shard = 8
     ready = True
     manifest = dict(
